@@ -39,7 +39,18 @@ pub struct Engine {
 
 impl Engine {
     pub fn spawn(path: &str, env: &[(String, String)]) -> Result<Engine, String> {
-        let mut cmd = Command::new(path);
+        // VH_PIN_CPU=<n> (given through `env`) runs the engine with all its threads on one CPU
+        // (taskset), so that the two threads are time-sliced against each other instead of running
+        // side by side: a different family of interleavings
+        let pin = env.iter().find(|(k, _)| k == "VH_PIN_CPU").map(|(_, v)| v.clone());
+        let mut cmd = match &pin {
+            Some(cpu) => {
+                let mut c = Command::new("taskset");
+                c.arg("-c").arg(cpu).arg(path);
+                c
+            }
+            None => Command::new(path),
+        };
         cmd.stdin(Stdio::piped()).stdout(Stdio::piped()).stderr(Stdio::piped());
         for (k, v) in env {
             cmd.env(k, v);
